@@ -1,6 +1,6 @@
 (* L2Check.v -- the end-to-end correspondence: the model (Gen + TmplExec on the
    regenerated template) against what the real moq produced on the same input. *)
-From Moq Require Import Strs GoTypes VarName Registry Scope Gen TmplAst TmplExec WellScoped.
+From Moq Require Import Strs GoTypes VarName Registry Scope Gen TmplAst TmplExec WellScoped Benign.
 
 (* type-parameter names are printed verbatim (since the fix of D1) *)
 Definition exported_tp (s : string) : string := s.
@@ -128,6 +128,7 @@ Definition regen_stable (c : l2case) (first : bool) : bool :=
 Definition verdicts (cs : list l2case) : list (string * string) :=
   map (fun c => let v := verdict c in
                 (lc_id c, v ++ "|" ++ join "," (families c ++
+                                (if benign_run (lc_input c) (lc_cfg c) (lc_args c) then [] else ["outside_benign_guard"]) ++
                                 (if regen_stable c false then [] else ["regen_unstable_last"]) ++
                                 (if regen_stable c true then [] else ["regen_unstable_first"]) ++
                                 (if regen_stable_at c (lc_mid c) then [] else ["regen_unstable_mid"]))%list ++
